@@ -227,3 +227,71 @@ def rule_tables(chk, A):
         chk.ob(R, "common_hi_reg_id_of_type_table[%s]" % (name or i), got == want, loc=UNIT,
                detail="common_hi_reg_id_of_type_table[%s] is %d, expected %d" % (name or i, got, want))
     chk.floor(R + ":a64-entries", n_ent, 40)
+
+
+def rule_mem_index(chk, A):
+    """the index register of a memory operand is packed only after its register type was looked at"""
+    from .must import Must
+    R = "R-MEM-INDEX-TYPE-CHECKED"
+    chk.rule(R, "a64 _emit: wherever Mem::index_id() is packed into an instruction (add_reg/add_imm directly or through a local), every path to "
+                "that point passed, on its accepting edge, a test of the operand's index_type() - directly or through a unit helper whose body "
+                "reads index_type() of its parameter (check_mem_base_index_rel): the 5-bit Rm field says nothing about the register's kind, so "
+                "an untested index accepts a W or vector register as if it were X")
+    emit, helpers = A["emit"], A["helpers"]
+    type_checkers = set()
+    for key, g in helpers.items():
+        if (g.raw.get("ret") or "") == "bool" and any(x["k"] == "mcall" and x.get("cn") == "index_type" for x in g.ex.values()):
+            type_checkers.add(g.name)
+
+    def edge(b, si, atom, holds, fn=emit):
+        x = fn.e(atom)
+        if x is None:
+            return ()
+        if x["k"] == "call" and x.get("callee") in type_checkers and holds:
+            return [("index-type-checked",)]
+        if any((fn.e(j) or {}).get("k") == "mcall" and fn.e(j).get("cn") == "index_type" for j in fn.walk(atom)):
+            return [("index-type-checked",)]
+        return ()
+    m = Must(emit, None, edge)
+    # locals that carry an index id
+    carriers = {}
+    for i, x in emit.ex.items():
+        src = None
+        if x["k"] == "binop" and x["op"] == "=":
+            l = emit.e(emit.strip(x["lhs"]))
+            r = emit.e(emit.strip(x["rhs"]))
+            if l is not None and l["k"] == "ref" and l.get("dk") == "local" and r is not None and r["k"] == "mcall" and r.get("cn") == "index_id":
+                src = (l["did"], i)
+        elif x["k"] == "decl":
+            for v in x["vars"]:
+                r = emit.e(emit.strip(v["init"])) if v.get("init") else None
+                if r is not None and r["k"] == "mcall" and r.get("cn") == "index_id":
+                    src = (v["did"], i)
+        if src:
+            carriers.setdefault(src[0], []).append(src[1])
+    n = 0
+    sites = []
+    for i, x in emit.calls(lambda x: x["k"] == "mcall" and x.get("cn") in ("add_reg", "add_imm") and x.get("args")):
+        a = emit.e(emit.strip(x["args"][0]))
+        if a is None:
+            continue
+        if a["k"] == "mcall" and a.get("cn") == "index_id":
+            sites.append((i, i))
+        elif a["k"] == "ref" and a.get("did") in carriers:
+            # judged where the id was read: the carrier is assigned under the same guards
+            for d in carriers[a["did"]]:
+                sites.append((i, d))
+    seen = set()
+    for pack, at in sites:
+        if at in seen:
+            continue
+        seen.add(at)
+        n += 1
+        st = m.before(at)
+        if st is None:
+            st = frozenset()
+        chk.ob(R, "a64::_emit|index_id@%d" % n, ("index-type-checked",) in st, loc=emit.loc(at),
+               detail="`%s` takes the index register id of the memory operand on a path that never looked at index_type(): [x0], w1 or [x0], v1 is "
+                      "encoded as if the index were x1" % " ".join(emit.text(at).split())[:60], key="memindex|%d" % n)
+    chk.floor(R + ":sites", n, 2)
+    chk.floor(R + ":type-checkers", len(type_checkers), 1)
